@@ -1260,6 +1260,11 @@ impl super::DiskFS for Disk {
             error!("empty data is not allowed for ProDOS file images");
             return Err(Box::new(Error::EndOfData));
         }
+        // the entry needs these fields; refuse before the directory is touched
+        if fimg.fs_type.len()<1 || fimg.version.len()<1 || fimg.min_version.len()<1 || fimg.aux.len()<2 || fimg.access.len()<1 {
+            error!("one or more ProDOS file image fields were too short");
+            return Err(Box::new(Error::Range));
+        }
         // a ProDOS file has at most 128 index blocks of 256 blocks each and a 24 bit EOF
         if fimg.end() > 128*256 || fimg.get_eof() > 0xffffff {
             error!("file image exceeds the ProDOS maximum file size");
